@@ -118,11 +118,20 @@ impl Container {
         let locator = Arc::new(ChainedLocator::new(locators));
 
         let pack_info = manifest_pack.get_directory_pack_info();
-        let directory_pack = Arc::new(DirectoryPack::new(
-            locator
-                .locate(pack_info.uuid, &pack_info.pack_location)?
-                .unwrap(),
-        )?);
+        let directory_pack_reader = match locator.locate(pack_info.uuid, &pack_info.pack_location)?
+        {
+            // As for content packs, what is located may be a container containing the pack.
+            Some(r) => open_as_container_pack(r)?.get_pack_reader(&pack_info.uuid),
+            None => None,
+        };
+        let directory_pack = Arc::new(DirectoryPack::new(directory_pack_reader.ok_or_else(
+            || -> Error {
+                format_error!(&format!(
+                    "Cannot find the directory pack {} (location: {})",
+                    pack_info.uuid, pack_info.pack_location
+                ))
+            },
+        )?)?);
         let value_storage = directory_pack.create_value_storage();
         let entry_storage = directory_pack.create_entry_storage();
         let mut packs = Vec::new();
